@@ -7,19 +7,19 @@ export GOFLAGS=-mod=mod GOPROXY=off GOSUMDB=off GOTOOLCHAIN=local
 cd $wt || exit 2
 git checkout -q -- . ; rm -f $dest
 git apply $sd/patch.diff || { echo "PATCH DOES NOT APPLY"; exit 2; }
-(cd module && go build ./... && go test -vet=off -count=1 ./x/... 2>&1 | grep -v "no test files") > /tmp/cs_suite.txt 2>&1
-suite_ok=$(grep -c "^FAIL\|^---.FAIL\|panic:" /tmp/cs_suite.txt)
+(cd module && go build ./... && go test -vet=off -count=1 ./x/... 2>&1 | grep -v "no test files") > /tmp/cs_$$_suite.txt 2>&1
+suite_ok=$(grep -c "^FAIL\|^---.FAIL\|panic:" /tmp/cs_$$_suite.txt)
 cp $sd/$demo $dest
-(cd module && go test -vet=off -count=1 -run "$rx" ./$pkg/ 2>&1 | tail -15) > /tmp/cs_with.txt
-with_fail=$(grep -c "^FAIL\|^--- FAIL" /tmp/cs_with.txt)
+(cd module && go test -vet=off -count=1 -run "$rx" ./$pkg/ 2>&1 | tail -15) > /tmp/cs_$$_with.txt
+with_fail=$(grep -c "^FAIL\|^--- FAIL" /tmp/cs_$$_with.txt)
 git apply -R $sd/patch.diff
-(cd module && go test -vet=off -count=1 -run "$rx" ./$pkg/ 2>&1 | tail -5) > /tmp/cs_without.txt
-without_ok=$(grep -c "^ok" /tmp/cs_without.txt)
+(cd module && go test -vet=off -count=1 -run "$rx" ./$pkg/ 2>&1 | tail -5) > /tmp/cs_$$_without.txt
+without_ok=$(grep -c "^ok" /tmp/cs_$$_without.txt)
 rm -f $dest; git checkout -q -- .
 echo "suite failures with patch: $suite_ok ; demo fails with patch: $with_fail ; demo passes without: $without_ok"
 if [ "$suite_ok" = "0" ] && [ "$with_fail" != "0" ] && [ "$without_ok" != "0" ]; then
   mkdir -p $out; cp $sd/patch.diff $out/patch.diff; cp $sd/$demo $out/; cp $sd/README.md $out/README.agent.md
   echo CONFIRMED
 else
-  echo NOT-CONFIRMED; tail -5 /tmp/cs_suite.txt /tmp/cs_with.txt /tmp/cs_without.txt
+  echo NOT-CONFIRMED; tail -5 /tmp/cs_$$_suite.txt /tmp/cs_$$_with.txt /tmp/cs_$$_without.txt
 fi
